@@ -205,7 +205,7 @@ theorem db_key_confined (cfg : Cfg) (s : State) (r : Request)
 /-- the hypotheses of `db_key_confined` are met: the key holder of `a` asks for `info` -/
 example :
     let cfg : Cfg := ⟨some "adm", "prim", 8⟩
-    let s : State := ⟨[("a", "ka"), ("b", "kb")], ["prim", "a", "b"], ["a", "b"], ["prim", "a", "b"], false, ["a", "b"], [("a", "ka"), ("b", "kb")], [("a", "ka"), ("b", "kb")], ["a", "b"], none⟩
+    let s : State := ⟨[("a", "ka"), ("b", "kb")], ["prim", "a", "b"], ["a", "b"], ["prim", "a", "b"], false, ["a", "b"], [("a", "ka"), ("b", "kb")], [("a", "ka"), ("b", "kb")], ["a", "b"], none, false⟩
     let r : Request := ⟨.post, .db "a", some (bearerPrefixBytes ++ [107, 97]), some .json, none, .rpc "info" ⟨none, none, none⟩, "g"⟩
     (handle cfg s r).2 = ⟨.json, .root (.info none ["a"]), some .database⟩ := by decide
 
@@ -352,8 +352,8 @@ theorem rejected_of_wrong_token (cfg : Cfg) (s : State) (r : Request) (n a : Str
 
 example :
     let cfg : Cfg := ⟨some "adm", "prim", 8⟩
-    let s₁ : State := ⟨[("a", "ka"), ("b", "kb")], ["prim", "a", "b"], ["a", "b"], ["prim", "a", "b"], false, ["a", "b"], [("a", "ka"), ("b", "kb")], [("a", "ka"), ("b", "kb")], ["a", "b"], none⟩
-    let s₂ : State := ⟨[], ["prim"], [], ["prim"], true, [], [], [], [], none⟩
+    let s₁ : State := ⟨[("a", "ka"), ("b", "kb")], ["prim", "a", "b"], ["a", "b"], ["prim", "a", "b"], false, ["a", "b"], [("a", "ka"), ("b", "kb")], [("a", "ka"), ("b", "kb")], ["a", "b"], none, false⟩
+    let s₂ : State := ⟨[], ["prim"], [], ["prim"], true, [], [], [], [], none, false⟩
     let tok := some (bearerPrefixBytes ++ [107, 97])   -- "Bearer ka"
     -- key of `a` on `b` (exists, bound to another key)  vs  no token on a database that does not exist
     (handle cfg s₁ ⟨.post, .db "b", tok, some .cbor, none, .rpc "doc.get" ⟨none, none, none⟩, "g"⟩).2 =
@@ -591,8 +591,9 @@ def exAdmin (m n : String) (k : Option String) : Event :=
 `persist_api_keys` to `save_extension_from` (and from `persist_registry` to it) there is no early
 non-error `return` and no enclosing conditional other than `if let Some(db) = <primary>` — the model's
 `persistKeys` / `persistRegistry` have no skip path because the code has none; the one conditional
-store is `remove_db_api_key`'s (modelled: `.removed false` without persisting; see the counterexample
-below). An "unchanged, skip" test added to any of these flips a fact here. -/
+store is `remove_db_api_key`'s (modelled: `.removed false` without persisting; harmless while the durable
+map equals the enforced one — `durable_equals_enforced` — and the source of the remaining counterexample
+for faults whose PUT landed). An "unchanged, skip" test added to any of these flips a fact here. -/
 theorem persistence_paths_frozen :
     persistKeysUnconditional = true ∧ persistRegistryUnconditional = true ∧ storeAlwaysPersists = true ∧
     setAlwaysStores = true ∧ removeStoresConditionally = true := by
@@ -662,22 +663,49 @@ example :
     exKeyOf [exAdmin "db.create" "a" (some "ka"), exFault 0, exAdmin "db.remove_api_key" "a" none,
              exAdmin "db.remove_api_key" "a" none, .crash] "a" = none := by decide +kernel
 
-/-- The full statement one would like — *every* 2xx answer of a key-management request, including
-`db.remove_api_key` answering `false` ("no key was bound") — is **false of the code**:
-`remove_db_api_key` answers `false` from the in-memory map without persisting, while the engine's
-copy of the extension may still hold the value of an earlier FAILED `db.set_api_key`, which any
-later successful PUT of the primary's metadata (here: registering another database) makes durable. -/
-def acknowledged_implies_durable_full : Prop :=
+/-- **durable_equals_enforced.** Fault model "a failed PUT did not land": after every history of
+requests, clean restarts, crashes and armed faults of that kind, the durable key map — and the
+engine's in-memory copy of the extension — EQUAL the enforced one. (Since commit 5c65d83
+`store_api_key` puts the restored map back into the engine's copy when persisting fails; before it
+this was false, see notes/C14.md finding 2.) -/
+theorem durable_equals_enforced (cfg : Cfg) (history : List Event) (hh : NoLandingFault history) :
+    (run cfg (init cfg) history).durableBound = (run cfg (init cfg) history).bound ∧
+    (run cfg (init cfg) history).extBound = (run cfg (init cfg) history).bound :=
+  let h := run_Sync cfg (init cfg) history (init_Sync cfg) hh
+  ⟨h.2.1, h.1⟩
+
+/-- **acknowledged_implies_durable_full.** Hence, under that fault model, *every* answer — every 2xx
+of a key-management request, including `db.remove_api_key` answering `false` from the in-memory map
+without persisting, and for that matter every 5xx — leaves the durable key map equal to the enforced
+one, so a crash at any point restarts into exactly the bindings that were being enforced. -/
+theorem acknowledged_implies_durable_full (cfg : Cfg) (history : List Event) (hh : NoLandingFault history)
+    (r : Request) :
+    (handle cfg (run cfg (init cfg) history) r).1.durableBound = (handle cfg (run cfg (init cfg) history) r).1.bound ∧
+    (crash cfg (handle cfg (run cfg (init cfg) history) r).1).bound = (handle cfg (run cfg (init cfg) history) r).1.bound := by
+  have h := handle_Sync cfg _ r (run_Sync cfg (init cfg) history (init_Sync cfg) hh)
+  exact ⟨h.2.1, h.2.1⟩
+
+/-- the former finding, now a regression example: the key of a `db.set_api_key` that answered 500 does
+not resurface after another database was registered, the removal answered `false`, and a crash -/
+example :
+    exKeyOf [exAdmin "db.create" "a" none, exFault 0, exAdmin "db.set_api_key" "a" (some "kx"),
+             exAdmin "db.create" "c" none, exAdmin "db.remove_api_key" "a" none, .crash] "a" = none := by
+  decide +kernel
+
+/-- What remains false: when the armed fault is of the kind "the object WAS written, the failure is
+reported afterwards" — `flush_metadata` writes `db_meta.cbor` and then `storage_meta.cbor`, so a plain
+failing PUT of the second object is such a fault for the first — the statement fails even for the
+acknowledged no-op removal. -/
+def acknowledged_implies_durable_any_fault : Prop :=
   ∀ (cfg : Cfg) (history : List Event) (r : Request) (b : Bool),
     (handle cfg (run cfg (init cfg) history) r).2.reply = .root (.removed b) →
     (handle cfg (run cfg (init cfg) history) r).1.durableBound = (handle cfg (run cfg (init cfg) history) r).1.bound
 
-/-- `db.create a`; fault; `db.set_api_key a kx` → 500; `db.create c` → 200 (its registry PUT carries the
-engine's copy `{a ↦ kx}`); `db.remove_api_key a` → 200 `false`; crash: `kx` is accepted on `a`. -/
-theorem acknowledged_noop_not_durable_counterexample : ¬ acknowledged_implies_durable_full := by
+/-- `db.create a`; landing fault; `db.set_api_key a kx` → 500 (memory and engine copy rolled back, but
+`{a ↦ kx}` is on disk); `db.remove_api_key a` → 200 `false` (nothing persisted); crash: `kx` is bound. -/
+theorem acknowledged_noop_not_durable_counterexample : ¬ acknowledged_implies_durable_any_fault := by
   intro h
-  have := h exCfg [exAdmin "db.create" "a" none, exFault 0, exAdmin "db.set_api_key" "a" (some "kx"),
-      exAdmin "db.create" "c" none]
+  have := h exCfg [exAdmin "db.create" "a" none, .faultLanding 0, exAdmin "db.set_api_key" "a" (some "kx")]
     ⟨.post, .root, some (bearerPrefixBytes ++ [97, 100, 109]), some .cbor, none,
       .rpc "db.remove_api_key" ⟨some "a", none, none⟩, "gen"⟩ false (by decide +kernel)
   revert this
@@ -729,7 +757,7 @@ example :
         exAdmin "db.set_api_key" "a" none, exAdmin "db.close" "b" none, .restart,
         exAdmin "db.set_api_key" "prim" (some "kp")] =
       ⟨[("a", "gen"), ("b", "kb")], ["prim", "a"], ["a"], ["b", "a", "prim"], false, ["a"],
-       [("a", "gen"), ("b", "kb")], [("a", "gen"), ("b", "kb")], ["a"], none⟩ := by decide +kernel
+       [("a", "gen"), ("b", "kb")], [("a", "gen"), ("b", "kb")], ["a"], none, false⟩ := by decide +kernel
 
 /-! ## Encodings -/
 
